@@ -204,7 +204,9 @@ def run(call: GeneratorCall) -> Module:
     except Exception:
         # The call failed, and is no longer in flight. A later, identical call runs the generator again.
         the_cache.stack.pop()
-        the_cache.pending.discard(call)
+        if call.gen.enable_cache:
+            # Only cached calls are tracked (and hashed): an un-cached call may have un-hashable parameters.
+            the_cache.pending.discard(call)
         raise
 
     # Store the result in our cache, and on the Call.
